@@ -288,6 +288,65 @@ def check_repair(mols, specs, system, b):
     return None
 
 
+def snapshot_marks(system):
+    return [{n: {k: list(d.get(k, [])) if k in d else None for k in ('mutation', 'modification')} for n, d in mol.nodes(data=True)}
+            for mol in system.molecules]
+
+
+def check_second_round(system, rnd, b, make_copies):
+    """A later request on a system that already carries marks: (a) on copies of annotated molecules (copies share the mark
+    lists of their source), (b) on a repaired system (RepairGraph hands one list to several atoms).  Every atom of a residue
+    the new request names gains the mark exactly once, every other atom keeps exactly what it had."""
+    from vermouth.processors.annotate_mut_mod import AnnotateMutMod
+    if make_copies:
+        for mol in list(system.molecules):
+            cp = mol.copy()
+            for n in cp.nodes:
+                cp.nodes[n]['chain'] = 'Q'
+            system.add_molecule(cp)
+    residues = []
+    for mi, mol in enumerate(system.molecules):
+        for n, d in mol.nodes(data=True):
+            key = (mi, d.get('chain'), d.get('resname'), d.get('resid'))
+            if d.get('resname') in PROT and key not in residues and d.get('chain'):
+                residues.append(key)
+    if make_copies:
+        residues = [r for r in residues if r[1] == 'Q']
+    if not residues:
+        return None
+    before = snapshot_marks(system)
+    chosen = rnd.sample(residues, min(len(residues), rnd.randint(1, 2)))
+    requests = []
+    for mi, chain, resname, resid in chosen:
+        parts = {'chain': chain, 'resname': resname, 'resid': resid}
+        if rnd.random() < 0.4:
+            del parts['resid']
+        requests.append((parts, rnd.choice(['N-ter', 'C-ter', 'COOH-ter'])))
+    b.hits += 1
+    try:
+        AnnotateMutMod(modifications=[(fmt_spec(p_), t) for p_, t in requests], mutations=[]).run_system(system)
+    except Exception as e:
+        import traceback
+        return ('second-round/exception/%s' % type(e).__name__, {'error': repr(e), 'trace': traceback.format_exc()[-600:]})
+    for mi, mol in enumerate(system.molecules):
+        for n, d in mol.nodes(data=True):
+            gained = [t for p_, t in requests
+                      if all({'chain': d.get('chain'), 'resname': d.get('resname'), 'resid': d.get('resid')}[k] == v for k, v in p_.items())]
+            old = before[mi][n]
+            for key in ('mutation', 'modification'):
+                want = list(old[key] or [])
+                if key == 'modification':
+                    want = want + gained
+                got = list(d.get(key, []))
+                if got != want:
+                    return ('second-round/wrong-residues-marked',
+                            {'history': 'copies of annotated molecules' if make_copies else 'annotate, repair, annotate',
+                             'molecule': mi, 'residue': [d.get('chain'), d.get('resname'), d.get('resid')], 'atom': d.get('atomname'),
+                             'attribute': key, 'before': old[key], 'requests': [[fmt_spec(p_), t] for p_, t in requests],
+                             'observed': got, 'expected': want})
+    return None
+
+
 def repairable(mols, specs, marks):
     ff = atomistic.native_ff('charmm')
     if any(m['kind'] != 'protein' for m in mols):
@@ -341,6 +400,13 @@ def run_case(params):
             b.nontrivial(desc, desc)
         if system is not None:
             marks, _ = expected_targets(mols, specs)
+            copies = rnd.random() < 0.3
+            if copies and marks:
+                p3 = check_second_round(system, rnd, b, True)
+                b.feat('second_round_on_copies')
+                if p3:
+                    b.violation(p3[0], 'a later request on an already annotated system (%s)' % p3[0], {'subcase': j, 'detail': p3[1], 'case': desc})
+                continue
             if marks and repairable(mols, specs, marks):
                 try:
                     with harness.sub_alarm(20):
@@ -352,4 +418,9 @@ def run_case(params):
                 b.feat('repair_cases')
                 if p2:
                     b.violation(p2[0], 'repair after a mutation/modification request (%s)' % p2[0], {'subcase': j, 'detail': p2[1], 'case': desc})
+                elif rnd.random() < 0.5:
+                    p3 = check_second_round(system, rnd, b, False)
+                    b.feat('second_round_after_repair')
+                    if p3:
+                        b.violation(p3[0], 'a later request on an already annotated system (%s)' % p3[0], {'subcase': j, 'detail': p3[1], 'case': desc})
     return b.result()
